@@ -196,6 +196,12 @@ KINDS = {
     "returns-object": "function f(a) { this.v = a; return {replaced: true}; }",
     "returns-primitive": "function f(a) { this.v = a; return 5; }",
     "ctor-with-proto": "function f(a) { this.v = a; } f.prototype.pm = function () { return 'pm' + this.v; };",
+    "bound-ctor": "function Base(a, b) { this.v = a; this.w = b; this.t = tag(this); } Base.prototype.pm = function () { return 'pm' + this.v; }; var f = Base.bind(BOUND, 'pre');",
+    "bound-twice-ctor": "function Base(a, b) { this.v = a; this.w = b; } Base.prototype.pm = function () { return 'pm' + this.w; }; var f = Base.bind(BOUND, 'p1').bind(T, 'p2');",
+    "returns-function": "function f(a) { this.v = a; return function inner() { return 'inner'; }; }",
+    "prototype-null": "function f(a) { this.v = a; } f.prototype = null;",
+    "prototype-primitive": "function f(a) { this.v = a; } f.prototype = 5;",
+    "prototype-replaced": "function f(a) { this.v = a; } f.prototype = {pm: function () { return 'replaced' + this.v; }};",
 }
 FORMS = {
     "plain": "f(1, 2)",
@@ -209,6 +215,7 @@ FORMS = {
     "bind": "f.bind(T, 1)(2)",
     "bind-twice": "f.bind(T).bind(BOUND)(1, 2)",
     "new": "var n = new f(1, 2); [tag(n), n instanceof f, n.v, n.replaced, typeof n.pm, Object.getPrototypeOf(n) === f.prototype]",
+    "new-details": "var n = new f(1, 2); [typeof n, n.v, n.w, n.t, typeof n.pm === 'function' ? n.pm() : 'no-pm', Object.getPrototypeOf(n) === Object.prototype, typeof Base === 'function' ? [n instanceof Base, Object.getPrototypeOf(n) === Base.prototype, new Base(0) instanceof f] : 'no-base', BOUND.v, T.v]",
     "new-noargs": "var n = new f; [tag(n), n instanceof f]",
     "callback": "[10].map(f)[0]",
     "callback-thisArg": "[10].forEach(function (v) { RES = f.call(this, v); }, T); RES",
